@@ -124,13 +124,16 @@ class Box:
 
     def bounds(self, p):
         lo, hi = self._bounds(p)
-        for q in self.nonneg:
-            d = p - q
-            if d.is_const():            # p = q + c  with q >= 0
-                lo = max(lo, d.const_value())
-            e = p + q
-            if e.is_const():            # p = c - q  with q >= 0
-                hi = min(hi, e.const_value())
+        # branch conditions q >= 0 of this path:  p = q + (p - q) >= min(p - q),  p = (p + q) - q <= max(p + q); also for a
+        # sum of two conditions (a value reduced twice in a row)
+        qs = list(self.nonneg)[-6:]
+        combos = [q for q in qs] + [qs[i] + qs[j] for i in range(len(qs)) for j in range(i + 1, len(qs))]
+        for q in combos:
+            try:
+                lo = max(lo, self._bounds(p - q)[0])
+                hi = min(hi, self._bounds(p + q)[1])
+            except Unsupported:
+                continue
         return lo, hi
 
     def _bounds(self, p):
